@@ -556,6 +556,9 @@ class HarnessA:
                 why = self.bind.get(t.name, rec.name)
                 if why:
                     self.bind.broken = True
+                    if self.ad.timed == "belt":
+                        # on a conveyor the retrieval discipline IS the exit order of C12 (also after cancellations)
+                        self.violate("C12", "exit-order", why)
                     self.violate("C06", "discipline", why, extra="," + self.bind.mode, stop=True)
             else:
                 self.bind.forget(rec.name)
